@@ -1,6 +1,6 @@
 (* C08 — when the connection ends, every request resolves and the failure is reported.
    Statements only. *)
-From MPD Require Import Bytes Tables BuilderModel LoopModel LoopProofs LoopSpec ServerModel DriverLoop LoopRefine LoopRefineProofs LoopDrainProofs LoopCancel LoopCancelProofs LoopCancelDrainProofs.
+From MPD Require Import Bytes Tables BuilderModel LoopModel LoopProofs LoopSpec ServerModel DriverLoop LoopRefine LoopRefineProofs LoopDrainProofs LoopCancel LoopCancelProofs LoopCancelDrainProofs LoopMute LoopMuteProofs.
 Open Scope N_scope.
 
 (* no responder is ever forgotten: at every resumption each responder the loop holds (or has just
@@ -147,6 +147,22 @@ Example c08_cancel_eof_example :
   map fst (flat_map g_res (snd (xrun (xinit ex_cf) (map erase_label ex_cancel_eof_labs ++ [b "e"])))) = [1; 2].
 Proof. exact ex_cancel_eof. Qed.
 
+(* ---- ... and when the application has dropped its ConnectionEvents before the connection ends (LoopMuteProofs.v) ----
+   Nobody listens for the closing event, yet every request still resolves exactly once, in issue order, nobody is left waiting and
+   nothing panics: the loop notices the end of the stream (or the failing reads) all the same. *)
+Theorem c08_exec_listener_dropped_eof : forall cf ls gls, mute_ok ls = true -> in_fragment cf (map mute_label ls) gls ->
+  all_resolved_quietly gls (snd (xrun (xinit cf) (ls ++ [b "e"]))) (fst (xrun (xinit cf) (ls ++ [b "e"]))).
+Proof. exact exec_mute_eof_resolves. Qed.
+
+Theorem c08_exec_listener_dropped_rerr : forall cf ls gls, mute_ok ls = true -> in_fragment cf (map mute_label ls) gls ->
+  all_resolved_quietly gls (snd (xrun (xinit cf) (ls ++ [b "r"]))) (fst (xrun (xinit cf) (ls ++ [b "r"]))).
+Proof. exact exec_mute_rerr_resolves. Qed.
+
+Theorem c08_all_resolved_quietly_means : forall gls segs x',
+  all_resolved_quietly gls segs x' <->
+  (quiet x' /\ x_callers x' = [] /\ map fst (flat_map g_res segs) = map q_id (flat_map issued_of gls) /\ Forall (fun g => g_panic g = false) segs).
+Proof. intros. reflexivity. Qed.
+
 Print Assumptions c08_responders_accounted.
 Print Assumptions c08_one_closing_event.
 Print Assumptions c08_dead_transport_exits.
@@ -159,3 +175,5 @@ Print Assumptions c08_exec_rerr_reported.
 Print Assumptions c08_exec_drain_step.
 Print Assumptions c08_exec_cancel_eof_resolves.
 Print Assumptions c08_exec_cancel_rerr_resolves.
+Print Assumptions c08_exec_listener_dropped_eof.
+Print Assumptions c08_exec_listener_dropped_rerr.
